@@ -170,18 +170,32 @@ def run(repo, rep, tier):
                         'try/finally: early exit leaves the enumeration '
                         'open on the server')
             continue
-        close_ok = False
-        for s in outer.finalbody:
-            if isinstance(s, ast.If):
-                calls = [c for c in self_calls(_B(s.body),
-                                               'CloseEnumeration')]
-                if eqsrc(s.test, 'pull_result is not None and '
-                         'not pull_result.eos') \
-                        and calls and \
-                        norm(calls[0].args[0] if calls[0].args else None) \
-                        == 'pull_result.context':
-                    close_ok = True
-            elif self_calls(s, 'CloseEnumeration'):
+        # the finally clause closes the enumeration exactly when a result
+        # exists and its eos is false: every CloseEnumeration call in it
+        # runs under those two facts (also when they are held in a flag
+        # local) and passes the context of that result
+        from ..cfg import stmt_facts as _sf15, flag_facts as _ff15
+        sfacts = _sf15(f.node)
+        closes = []
+        for st_, (fs_, _t) in sfacts.items():
+            if isinstance(st_, (ast.If, ast.For, ast.While, ast.Try,
+                                ast.With)):
+                continue
+            if not any(st_ is x for fb in outer.finalbody
+                       for x in ast.walk(fb)):
+                continue
+            for c_ in self_calls(st_, 'CloseEnumeration'):
+                closes.append((st_, c_, list(fs_) + _ff15(f.node, st_, fs_)))
+        close_ok = bool(closes)
+        for st_, c_, fs_ in closes:
+            arg = norm(c_.args[0] if c_.args else None)
+            var = arg[:-len('.context')] if arg.endswith('.context') else None
+            have = {(norm(t_), p_) for t_, p_ in fs_}
+            if var is None or \
+                    not ((var + ' is not None', True) in have or
+                         (var + ' is None', False) in have) or \
+                    not ((var + '.eos', False) in have or
+                         ('not %s.eos' % var, True) in have):
                 close_ok = False
         r1.ob(close_ok, name + ':finally-close',
               {'iter': name, 'finally': [norm(s, 200)
